@@ -553,7 +553,7 @@ class PipeHistH(Harness):
         buf = b''
         hung = False
         while True:
-            ready, _, _ = select.select([r], [], [], 20.0)
+            ready, _, _ = select.select([r], [], [], 10.0)
             if not ready:
                 hung = True
                 break
@@ -576,7 +576,7 @@ class PipeHistH(Harness):
             k = buf.count(b'.') - 1
             op = case[k] if 0 <= k < len(case) else None
             return ('hang', (f'pipe-operation-blocks:{op[1] if op else "?"}',
-                             f'history {case}: operation {k} {op} did not return within 20 s (the object was sent, or the peer has '
+                             f'history {case}: operation {k} {op} did not return within 10 s (the object was sent, or the peer has '
                              'closed, so it must return)'), True)
         if b'!' not in buf:
             return ('crash', ('pipe-history-crashed', f'history {case}: the child ended without a verdict'), True)
